@@ -83,6 +83,8 @@ def run(ctx):
     ctx.cov["distinct_nontrivial"] = len(st.nontrivial)
     ctx.cov["rule"] = st.rule()
     ctx.cov["input_distribution"] = st.dist
+    if st.aliasing_notes:
+        ctx.notes.append("aliasing observed (by design, informational): " + "; ".join(sorted(st.aliasing_notes)))
 
     # ---- decide (direct-predicate failures first; one report per failing class)
     seen = set()
